@@ -9,6 +9,7 @@ import Cfdm.Driver.C18
 import Cfdm.Driver.C16
 import Cfdm.Driver.C19
 import Cfdm.Driver.C07
+import Cfdm.Driver.C08
 open Cfdm.Driver
 
 def step (line : String) : String :=
@@ -29,6 +30,7 @@ def step (line : String) : String :=
       | ["C16", sub] => C16.run sub kv
       | ["C19", sub] => C19.run sub kv
       | ["C07", sub] => C07.run sub kv
+      | ["C08", sub] => C08.run sub kv
       | _ => "bad-op"
 
 partial def loop (h : IO.FS.Stream) : IO Unit := do
